@@ -1,6 +1,7 @@
 //! Parallel processing for DBC files
 
 use crate::field_parser::bounded_capacity;
+use crate::versions::record_data_offset;
 use crate::{DbcHeader, Error, FieldType, Record, RecordSet, Result, Schema, StringBlock, Value};
 use rayon::prelude::*;
 use std::io::{Cursor, Read, Seek, SeekFrom};
@@ -15,7 +16,8 @@ pub fn parse_records_parallel(
 ) -> Result<RecordSet> {
     // The record count comes from the header and sizes the vectors below, so the
     // records it announces have to be present in the data
-    let available = data.len().saturating_sub(DbcHeader::SIZE) as u64;
+    let record_data_offset = record_data_offset(data);
+    let available = (data.len() as u64).saturating_sub(record_data_offset);
     if header.record_count as u64 * header.record_size.max(1) as u64 > available {
         return Err(Error::OutOfBounds(format!(
             "{} records of {} bytes do not fit into {} bytes of record data",
@@ -43,7 +45,7 @@ pub fn parse_records_parallel(
             for &index in chunk {
                 // Seek to the position of the record
                 let record_position =
-                    DbcHeader::SIZE as u64 + (index as u64 * header.record_size as u64);
+                    record_data_offset + (index as u64 * header.record_size as u64);
                 cursor.seek(SeekFrom::Start(record_position))?;
 
                 // Parse the record
